@@ -283,7 +283,7 @@ def _run_system(args):
         flo = 1e-13 * ofro(b) * max(1.0, cond)
         ratio = (act + flo) / (opt + flo)
         tid += 1
-        ev.append({"tid": tid, "ev": "Opt", "cls": cname, "m": m, "res_lg": lg(max(act, opt) / ofro(b)),
+        ev.append({"tid": tid, "ev": "Opt", "cls": cname, "m": m, "res_lg": lg(max(act, opt) / ofro(b)), "cond_lg": max(0, lg(cond)),
                    "ratio_fx": int(min(math.ceil(ratio * 32768), 2 ** 30))})
         xprev = xc
     # zero right-hand side
